@@ -23,6 +23,7 @@ NCPU = 16
 # per-property configuration: cases are per worker
 CONF = {
     "C01": dict(level="exploration", workers=16, quick=dict(cases=220, size=60), thorough=dict(cases=4000, size=100)),
+    "C02": dict(level="exploration", workers=16, quick=dict(cases=4000, size=60), thorough=dict(cases=60000, size=100)),
     "C04": dict(level="exploration", workers=16, quick=dict(cases=4000, size=80), thorough=dict(cases=15000, size=100)),
     "C05": dict(level="exploration", workers=16, quick=dict(cases=500, size=60), thorough=dict(cases=12000, size=100)),
     "C06": dict(level="exploration", workers=16, quick=dict(cases=1500, size=70), thorough=dict(cases=15000, size=100)),
@@ -32,7 +33,7 @@ CONF = {
     "C11": dict(level="exploration", workers=16, quick=dict(cases=400, size=60), thorough=dict(cases=6000, size=100),
                 fuzz=[dict(name="fz_session", quick_runs=1200, thorough_runs=60000, max_len=256, jobs=6)]),
     "C12": dict(level="exploration", workers=16, quick=dict(cases=1200, size=70), thorough=dict(cases=12000, size=100)),
-    "C13": dict(level="exploration", workers=16, quick=dict(cases=700, size=60), thorough=dict(cases=8000, size=100)),
+    "C13": dict(level="exploration", workers=16, quick=dict(cases=2000, size=60), thorough=dict(cases=8000, size=100)),
     "C15": dict(level="exploration", workers=16, quick=dict(cases=3000, size=80), thorough=dict(cases=15000, size=100)),
     "C17": dict(level="exploration", workers=16, quick=dict(cases=8000, size=100), thorough=dict(cases=150000, size=150),
                 fuzz=[]),
@@ -160,6 +161,7 @@ def main():
     for s in stats:
         hashes.update(s["nontrivial_hashes"])
         inconclusive += s.get("inconclusive", 0)
+        unstable += s.get("unstable_first", 0)
         for k, v in s["tags"].items():
             tags[k] = tags.get(k, 0) + v
         for k, v in s.get("known_hits", {}).items():
